@@ -65,6 +65,12 @@ func yieldStmt() ast.Stmt {
 }
 
 func instrumentList(list []ast.Stmt) []ast.Stmt {
+	for _, s := range list {
+		switch s.(type) {
+		case *ast.CaseClause, *ast.CommClause:
+			return list // body of a switch/select: only the clauses' own bodies are instrumented
+		}
+	}
 	var out []ast.Stmt
 	for _, s := range list {
 		switch s.(type) {
